@@ -122,10 +122,11 @@ def run(ctx):
     hr = ctx.harness("release")
     if hr is not None:
         huge = [("hist N uzero %d l fd u x0102 l fd" % (2 ** 32 + 100), 2 ** 32 + 100),
+                ("hist L ugen 5 1000 uzero %d l fd u x0102 l fd" % (2 ** 32 + 64), 2 ** 32 + 1064),     # a NON-fresh generator
                 ("hist S u x000000 uzero %d l fd" % (2 ** 32 - 3), 2 ** 32)]
         if ctx.tier == "thorough":
             huge.append(("hist LL uzero %d l f 30 uzero 5 l f 30" % (gc.MAX - 2), gc.MAX - 2))
-        ho = core.run_cases(hr, [h[0] for h in huge], tag="c11h", timeout=1500, shards=3)
+        ho = core.run_cases(hr, [h[0] for h in huge], tag="c11h", timeout=1500, shards=4)
         for (c, n0), o in zip(huge, ho):
             ctx.evaluations += 1
             ctx.nontrivial.add(c)
